@@ -14,7 +14,7 @@ ID = 'C19'
 LEVEL = 'fault_enumeration'
 RULE = ('listing: zip archives with 0..6 members (nested directory members, stored/deflated, unix modes, dates across month/'
         'year ends and 29 Feb, names with spaces/UTF-8) under the extensions .zip .jar .war .ear, upper case, a wrong extension '
-        'and a configured extra extension, placed at each depth of a small tree x depth windows x filters x ORDER BY x every '
+        'and a configured extra extension, the same archive under two hard-linked names, regex roots, four time zones (stored times inside DST gaps/folds), placed at each depth of a small tree x depth windows x filters x ORDER BY x every '
         'LIMIT 0..M+2 x archives on/off, under a controlled clock on every day of month 1..31 of Jan/Mar, 28/29 Feb and both '
         'year ends; faults: EVERY truncation length 0..L of a small archive, every single-bit flip (and ^0xFF, 0x00) of every byte of the archive (local headers, data, central '
         'directory, end record), every subset of the member list as an archive of its own, unreadable archives (chmod 000 as uid 65534, injected EIO); non-trivial = the '
@@ -70,10 +70,11 @@ def list_tree():
         'zip': F(data=zbytes(MEMBERS[:1])), 'extra.apk': F(data=zbytes(MEMBERS[:3])), 'plain.txt': F(7),
         'd1': D({'in.zip': F(data=zbytes(MEMBERS[:3])), 'f': F(1), 'd2': D({'deep.zip': F(data=zbytes(MEMBERS[3:])), 'g': F(2)})}),
         'fake.zip': F(data=b'this is not a zip file'), 'dir.zip': D({'x': F(1)}),
+        'hl.zip': {'t': 'f', 'link': 'one.jar'}, 'd1b': D({'again.zip': {'t': 'f', 'link': 'd1/in.zip'}}),
     }
 
 
-ARCHIVES = {'./z6.zip': MEMBERS, './z0.zip': [], './one.jar': MEMBERS[:1], './two.WAR': MEMBERS[:2], './app.ear': MEMBERS[2:4],
+ARCHIVES = {'./hl.zip': MEMBERS[:1], './d1b/again.zip': MEMBERS[:3], './z6.zip': MEMBERS, './z0.zip': [], './one.jar': MEMBERS[:1], './two.WAR': MEMBERS[:2], './app.ear': MEMBERS[2:4],
             './d1/in.zip': MEMBERS[:3], './d1/d2/deep.zip': MEMBERS[3:]}
 
 
@@ -83,6 +84,8 @@ def groups(tier, seed):
             yield {'kind': 'list', 'where': w, 'order': order}
     yield {'kind': 'window'}
     yield {'kind': 'config'}
+    yield {'kind': 'rxroot'}
+    yield {'kind': 'tz'}
     days = [(2021, 1, d) for d in range(1, 32)] + [(2021, 3, d) for d in (28, 29, 30, 31)] + [(2021, 2, 28), (2024, 2, 28), (2024, 2, 29),
                                                                                                (2020, 12, 31), (2021, 12, 31), (2021, 4, 30)]
     for i in range(0, len(days), 6):
@@ -151,7 +154,7 @@ def eval_group(env, group, tier):
             r.update(status='viol', cls=cls, detail=detail, sig=('viol', cls))
         outs.append(r)
     try:
-        if kind in ('list', 'window', 'config', 'clock'):
+        if kind in ('list', 'window', 'config', 'clock', 'rxroot', 'tz'):
             core.materialise(root, list_tree())
         if kind == 'list':
             w, order = group['where'], group['order']
@@ -202,6 +205,27 @@ def eval_group(env, group, tier):
                             exp += [m[1] for m in ms]
                     ok = o.rc == 0 and not o.err and sorted(o.rows()) == sorted(exp)
                     emit(['window', mn, mx, mode], ok, 'members-in-depth-window', dict(o.brief(), query=q, expected_n=len(exp)), layer='window')
+        elif kind == 'rxroot':
+            # search roots given as a regular expression keep their options
+            for frm, dirs_ in (('d1.* archives rx', ['d1', 'd1b']), ('d1 archives, d1b archives', ['d1', 'd1b']), ('d[1] dfs archives rx', ['d1'])):
+                o = env.run(['path from ' + frm + ' into list'], cwd=root)
+                exp = []
+                for dname in dirs_:
+                    exp += [r_[1][2:] for r_ in ordinary_rows(root, dname)]
+                for a, ms in ARCHIVES.items():
+                    if any(a.startswith('./' + dname + '/') for dname in dirs_):
+                        exp += [member_row('', a[2:], m)[1] for m in ms]
+                emit(['rxroot', frm], o.rc == 0 and sorted(o.rows()) == sorted(exp), 'regex-root-with-archives', dict(o.brief(), query=frm, expected_n=len(exp)), layer='rxroot')
+        elif kind == 'tz':
+            members = [member_row(os.path.basename(a), a, m) for a, ms in ARCHIVES.items() for m in ms]
+            exp = sorted((m[1], m[5]) for m in members)
+            for tz in ('UTC', 'Europe/Berlin', 'America/New_York', 'Australia/Lord_Howe'):
+                o = env.run(["path, modified from . archives where name like '[%' into list"], cwd=root, env={'TZ': tz})
+                rows = o.rows(2)
+                emit(['tz', tz], o.rc == 0 and rows is not None and sorted(rows) == exp, 'member-date-depends-on-zone', dict(o.brief(), tz=tz), layer='tz')
+                o = env.run(["path from . archives where name like '[%' order by modified, path into list"], cwd=root, env={'TZ': tz})
+                want = [m[1] for m in sorted(members, key=lambda m: (m[5], m[1]))]
+                emit(['tz-order', tz], o.rc == 0 and o.rows() == want, 'member-date-order-depends-on-zone', dict(o.brief(), tz=tz), layer='tz')
         elif kind == 'config':
             conf0 = open(env.config_path()).read()
             import re
